@@ -8,12 +8,14 @@
 
     The statement is FALSE for the current code, in six independent ways (known findings K6a-e,g); each has a
     witness below, reproduced on the real code by bin/check C16 (corpus/C16.json).  What is proved for all
-    inputs is [enforces_partial_*]: compiler correctness of one policy chain, per side, on the fragment where
-    galaxy is right (see the statements).  Theorems only; proofs are in Proofs/K8sPolicyP.v. *)
+    inputs is [enforces_partial] (per node: [enforces_partial_node]): compiler correctness on the fragment where
+    galaxy is right - the same equation, for every cluster in [frag] and every flow with at most one hooked end
+    per node (see the statements).  Theorems only; proofs are in Proofs/K8sPolicyP.v (refutation) and
+    Proofs/K8sPolicyFragP.v (the positive half, on top of the C15 lemmas about a Run from an empty node). *)
 From Coq Require Import List Ascii String NArith Bool.
 From Galaxy.Base Require Import Strs.
 From Galaxy.Model Require Import Nets Netfilter Policy K8sPolicy.
-From Galaxy.Proofs Require Import K8sPolicyP.
+From Galaxy.Proofs Require Import PolicyP K8sPolicyP K8sPolicyFragP.
 Import ListNotations.
 Open Scope N_scope.
 
@@ -61,3 +63,65 @@ Theorem refutation_verdicts :
   (galaxy_allows Hx Cg fg = true /\ k8s_allows Cg fg = false).
 Proof. exact (conj witness_a (conj witness_b (conj witness_c (conj witness_d (conj witness_e witness_g))))). Qed.
 Print Assumptions refutation_verdicts.
+
+(** ---- the positive half: compiler correctness on the fragment where galaxy is right (DESIGN.md appendix D)
+
+    The fragment [frag c] (Proofs/K8sPolicyFragP.v; a boolean, every condition is listed here):
+      (1) every rule of the direction its policy affects has at least one peer                         (K6c outside)
+      (2) every peer is an ipBlock, a namespaceSelector-only peer, or a podSelector-only peer all of whose matching
+          pods (of the whole cluster) live in the policy's namespace; no namespaceSelector+podSelector peer
+                                                                                                  (K6a, K6b outside)
+      (3) at most one ipBlock per rule; CIDR addresses < 2^32 and prefix lengths <= 32; every exception has a
+          strictly longer prefix than its block (block and exception never print to the same set element, K5d)
+                                                                                                       (K6d outside)
+      (4) every port entry is numeric with protocol "tcp" or "udp"
+      (5) every policy affects exactly one direction (affects_in xor affects_eg, policyTypes defaulted as the API
+          does), and no pod is isolated in both directions (selected by an ingress-affecting and by an
+          egress-affecting policy)                                                                     (K6e outside)
+      well-formed cluster: policy keys name_namespace pairwise distinct, pod keys pairwise distinct, pod addresses
+      < 2^32 and pairwise distinct.
+    Premises on the flow:
+      [flow_ok f]: source and destination addresses < 2^32;
+      (6) [one_hooked c f]: there is no pair (pod owning the source address, pod owning the destination address) on ONE
+          node with the source egress-isolated and the destination ingress-isolated                    (K6g outside).
+    Premise on the name hash: it does not collide on the policy keys nor on the keys of the pods of a node the flow
+    crosses ([hash_distinct], the premise of C15's sync_exact_partial_fresh); [enforces_partial_inj] discharges it
+    for an injective hash.
+
+    Then the verdict of the packet walk over the kernels PolicyManager.Run installs (from a node without any
+    netfilter state) on the nodes of the two ends IS the NetworkPolicy reference verdict. *)
+Theorem enforces_partial : forall (H : str -> str) (c : cluster) (f : flow),
+  (forall n, In n (flow_nodes c f) -> hash_distinct H n c = true) ->
+  frag c = true -> flow_ok f = true -> one_hooked c f = true ->
+  galaxy_allows H c f = k8s_allows c f.
+Proof. exact enforces_partial_l. Qed.
+Print Assumptions enforces_partial.
+
+(** the same for an injective name hash (the quantifier of [enforces]) *)
+Theorem enforces_partial_injective : forall H : str -> str, (forall a b, H a = H b -> a = b) ->
+  forall (c : cluster) (f : flow), frag c = true -> flow_ok f = true -> one_hooked c f = true ->
+  galaxy_allows H c f = k8s_allows c f.
+Proof. exact enforces_partial_inj. Qed.
+Print Assumptions enforces_partial_injective.
+
+(** per node, as the models are: FORWARD of the kernel installed on node n accepts the new connection exactly when
+    every pod of n owning the source address may send (egress_ok) and every pod of n owning the destination address
+    may receive (ingress_ok) *)
+Theorem enforces_partial_node : forall (H : str -> str) (n : str) (c : cluster) (f : flow),
+  hash_distinct H n c = true -> frag c = true -> flow_ok f = true -> one_hooked c f = true ->
+  verdict (installed H n c) forward f =
+  forallb (fun s => negb (str_eqb (pod_node s) n) || egress_ok c s f) (pods_at c (f_src f)) &&
+  forallb (fun d => negb (str_eqb (pod_node d) n) || ingress_ok c d f) (pods_at c (f_dst f)).
+Proof. exact node_enforces. Qed.
+Print Assumptions enforces_partial_node.
+
+(** the fragment is inhabited by a non-trivial cluster: two namespaces, five pods on two nodes, two policies (an
+    ingress policy with a podSelector peer, an ipBlock with an exception, a namespaceSelector peer and tcp+udp
+    ports; an egress policy with an ipBlock with an exception); six flows satisfying the premises, three allowed
+    and three denied - by the reference and by the walk over the installed rules *)
+Example enforces_partial_nonvacuous :
+  (frag xp_c = true) /\ (List.length (c_pols xp_c) = 2%nat) /\
+  (forallb (fun f => flow_ok f && one_hooked xp_c f) xp_flows = true) /\
+  (map (k8s_allows xp_c) xp_flows = [true; false; true; false; true; false]) /\
+  (map (galaxy_allows Hx xp_c) xp_flows = [true; false; true; false; true; false]).
+Proof. exact enforces_partial_example_l. Qed.
